@@ -619,6 +619,19 @@ P("random_split_first", lambda t: t.df.random_split([0.5, 0.5], random_state=3)[
 P("shuffle_ignore_index_drop_duplicates", lambda t: t.df[["a", "f"]].shuffle("a", ignore_index=True).drop_duplicates() if t.lazy else t.df[["a", "f"]].drop_duplicates(), order_free=True, index_free=True)
 
 
+# two different partition selections of ONE source combined by index (co-alignment must look at the selection)
+P("sel_concat_axis1_two_selections", lambda t: t.dd.concat([t.df.partitions[[0, 1]][["u"]], t.df.partitions[[1, 2]][["f"]]], axis=1) if t.lazy else t.df, dask_only=True, needs_known=True, needs_range=True, tags={"parts"})
+P("sel_add_two_selections", lambda t: t.df.partitions[[0, 1]].u + t.df.partitions[[1, 2]].f if t.lazy else t.df.u, dask_only=True, needs_known=True, tags={"parts"})
+P("sel_assign_other_selection", lambda t: t.df.partitions[[0, 1]][["a"]].assign(z=t.df.partitions[[1, 2]].u) if t.lazy else t.df, dask_only=True, needs_known=True, tags={"parts"})
+# row counts as RESULTS (Len / Size rewrites are part of what optimization may change)
+P("len_bcast_minus_frame", lambda t: (t.df[["b", "f"]].astype("float64").max() - t.df[["b", "f"]].astype("float64")).shape[0])
+P("len_series_bcast_minus", lambda t: (t.df.u.mean() - t.df.u).size)
+P("len_filtered_plus_unfiltered", lambda t: (t.df.u[t.df.u > 5] + t.df.u).shape[0], needs_range=True)
+P("len_after_filter_assign", lambda t: t.df[t.df.a > 0].assign(z=1).shape[0])
+P("size_frame_elemwise", lambda t: (t.df[["u", "f"]] * 2).size)
+P("len_concat_parts", lambda t: t.dd.concat([t.df, t.df3]).shape[0])
+
+
 def program_names(tags_exclude=()):
     return [n for n, p in PROGRAMS.items() if not (p.tags & set(tags_exclude))]
 
